@@ -21,8 +21,8 @@ TECHNIQUE = (
     "chunkings; dispatches, written bytes and close state judged against an independent framing codec and a model of the statement"
 )
 LEVEL_TEXT = (
-    "Held on every generated stream and chunking: all 2^(n-1) chunkings of every enumerated stream of <= 12 bytes "
-    "(sequences of 1-3 tiny messages, quick; plus further triples, thorough), single-byte / boundary-adversarial / random chunkings "
+    "Held on every generated stream and chunking: all 2^(n-1) chunkings of every enumerated short stream "
+    "(sequences of 1-4 tiny messages, <= 12 bytes; triples limited to <= 9 bytes in quick), single-byte / boundary-adversarial / random chunkings "
     "of generated sequences with body lengths across 12|13, 268|269, 65804|65805 and 70000, malformed / oversized frames at every "
     "position, every signalling code with elective and critical option sweeps, and end-to-end Release/Abort/Ping/empty scenarios on a real Context; "
     "says nothing about streams outside these generators."
@@ -43,18 +43,18 @@ ASSUMPTIONS = [
 ]
 REQUIRED_MONITORS = {
     "quick": {
-        "dispatch_equals_sent": 20000, "exhaustive_chunkings": 20000, "outgoing_bytes": 300, "csm_gate": 500, "abort_and_close": 1000,
-        "oversize_abort": 4, "elective_sig_option_ignored": 200, "critical_sig_option_abort": 200, "ping_pong": 1000, "empty_ignored": 1000,
-        "release_abort_fail_pending": 40, "e2e_server": 40, "e2e_outgoing_request": 40, "no_escape": 20000, "own_csm": 2,
+        "dispatch_equals_sent": 1000000, "exhaustive_chunkings": 1000000, "outgoing_bytes": 3000, "csm_gate": 50000, "abort_and_close": 100000,
+        "oversize_abort": 8, "elective_sig_option_ignored": 10000, "critical_sig_option_abort": 10000, "ping_pong": 50000, "empty_ignored": 50000,
+        "release_abort_fail_pending": 1000, "e2e_server": 1000, "e2e_outgoing_request": 1000, "no_escape": 1000000, "own_csm": 2,
     },
     "thorough": {
-        "dispatch_equals_sent": 1000000, "exhaustive_chunkings": 1000000, "outgoing_bytes": 20000, "csm_gate": 20000, "abort_and_close": 50000,
-        "oversize_abort": 100, "elective_sig_option_ignored": 5000, "critical_sig_option_abort": 5000, "ping_pong": 50000, "empty_ignored": 50000,
-        "release_abort_fail_pending": 2000, "e2e_server": 2000, "e2e_outgoing_request": 2000, "no_escape": 1000000, "own_csm": 2,
+        "dispatch_equals_sent": 10000000, "exhaustive_chunkings": 10000000, "outgoing_bytes": 300000, "csm_gate": 1000000, "abort_and_close": 3000000,
+        "oversize_abort": 300, "elective_sig_option_ignored": 300000, "critical_sig_option_abort": 300000, "ping_pong": 1000000, "empty_ignored": 1000000,
+        "release_abort_fail_pending": 100000, "e2e_server": 100000, "e2e_outgoing_request": 100000, "no_escape": 10000000, "own_csm": 2,
     },
 }
 EXHAUSTIVE = {
-    "chunkings_of_short_streams": "all 2^(n-1) chunkings of every enumerated stream of n <= 12 bytes: every sequence [x], [x,y], [CSM,x,y] over the 21-message alphabet SHORT (quick); additionally every triple [x,y,z] (thorough); both roles",
+    "chunkings_of_short_streams": "all 2^(n-1) chunkings of every enumerated stream: every sequence [x], [x,y], [CSM,x,y] of <= 12 bytes and every [x,y,z], [CSM,x,y,z] of <= 9 bytes (quick) / <= 12 bytes (thorough) over the 21-message alphabet short_alphabet(); both roles",
     "bad_frame_positions": "every malformed / oversized class at every position 0..len of a 4-message base sequence",
     "signalling_option_sweep": "codes 7.01-7.05 x option numbers {elective, critical} lists x value shapes",
 }
@@ -467,7 +467,9 @@ def analyse(items):
     e.later = Counter(it.snap for it in items[e.stop_i + 1 :] if it.snap is not None) if e.stop else Counter()
     first_csm = None
     for i, it in enumerate(items):
-        if it.kind == "csm":
+        # a CSM carrying an unknown critical option is still "the peer's CSM" for the gate: what is
+        # dispatched after the Abort it provokes is counted (dispatch_after_own_abort), not judged
+        if it.kind == "csm" or (it.kind == "sigcrit" and it.frame.code == 0xE1):
             first_csm = i
             break
     e.after_csm = Counter(it.snap for it in (items[first_csm + 1 :] if first_csm is not None else []) if it.snap is not None)
@@ -624,8 +626,9 @@ def judge(env, rig, items, exp, case, chunks, section):
                     viol("abort/%s/closed-without-abort" % exp.cls, "connection closed but no Abort (7.05) written before the close for class %s" % exp.cls)
                 elif not t.closing:
                     viol("abort/%s/abort-without-close" % exp.cls, "Abort written but transport not closed for class %s" % exp.cls)
-            if pongs[: len(exp.pongs)] != exp.pongs and rig.escape is None and not early:
+            if exp.pongs:
                 rep.monitor("ping_pong")
+            if pongs[: len(exp.pongs)] != exp.pongs and rig.escape is None and not early:
                 viol("ping/no-pong", "a Ping preceding the aborted frame was not answered with its token", pong_tokens=[p.hex() for p in pongs], ping_tokens=[p.hex() for p in exp.pongs])
             if t.late:
                 rep.count("writes_after_own_close")
@@ -646,8 +649,9 @@ def judge(env, rig, items, exp, case, chunks, section):
                 rep.count("dispatch_after_peer_release_or_abort")
             errs = [e for e in rig.tm.errors if e is not None]
             rep.count("peerclose_error_signalled" if errs else "peerclose_no_error_signalled")
-            if pongs[: len(exp.pongs)] != exp.pongs and rig.escape is None and not early:
+            if exp.pongs:
                 rep.monitor("ping_pong")
+            if pongs[: len(exp.pongs)] != exp.pongs and rig.escape is None and not early:
                 viol("ping/no-pong", "a Ping preceding Release/Abort was not answered with its token")
         elif exp.stop == "emptyx":
             if stray:
@@ -839,7 +843,7 @@ def gen_signal(rt, r, code, elective=False, critical=False):
 BAD_CLASSES = ["tkl-above-8", "option-overruns-frame", "option-nibble-15", "option-ext-truncated", "non-utf8-string-option", "sig-critical-option"]
 
 
-def gen_bad(rt, r, cls, env=None):
+def gen_bad(rt, r, cls):
     code = r.choice(REQ_CODES + RESP_CODES)
     token = gen_token(r)
     good = rt.encode_options(tuple(sorted([gen_option(r, critical_only=True) for _ in range(r.randrange(0, 3))], key=lambda o: o[0])))
@@ -1013,11 +1017,15 @@ def short_streams(alpha, tier):
     seqs = [[x] for x in names]
     seqs += [[x, y] for x in names for y in names]
     seqs += [["csm", x, y] for x in names for y in names]
-    if tier == "thorough":
-        seqs += [[x, y, z] for x in names for y in names for z in names if x != "csm"]
+    limit3 = 12 if tier == "thorough" else 9
+    tri = [[x, y, z] for x in names for y in names for z in names if x != "csm"]
+    tri += [["csm", x, y, z] for x in names for y in names for z in names]
     out = []
     for s in seqs:
         if 2 <= sum(len(alpha[n].data) for n in s) <= 12:
+            out.append(s)
+    for s in tri:
+        if sum(len(alpha[n].data) for n in s) <= limit3:
             out.append(s)
     return out
 
@@ -1130,7 +1138,7 @@ class Sections:
         self.run_stream("seq", role, items, chunkings(r, items, data, self.quick), ["seq", role, i], only_ci, sample=(i < 2 and role == "server"))
 
     def seq(self):
-        n = 60 if self.quick else 9000
+        n = 600 if self.quick else 90000
         for j in range(n):
             i = self.shard["index"] + j * self.shard["of"]
             for role in ("server", "client"):
@@ -1174,7 +1182,7 @@ class Sections:
         k = 0
         for cls in BAD_CLASSES:
             for pos in range(6):
-                for v in range(2 if self.quick else 150):
+                for v in range(20 if self.quick else 1500):
                     for role in ("server", "client"):
                         k += 1
                         if self.mine(k):
@@ -1250,7 +1258,7 @@ class Sections:
 
     def oversize(self):
         k = 0
-        for v in range(1 if self.quick else 12):
+        for v in range(2 if self.quick else 40):
             for variant in self.OVERSIZE_VARIANTS:
                 for role in ("server", "client"):
                     k += 1
@@ -1349,7 +1357,7 @@ class Sections:
                             k += 1
                             if self.mine(k):
                                 self.outgrid_one(role, L, tkl, mode, path)
-        n = 12 if self.quick else 1500
+        n = 300 if self.quick else 30000
         for j in range(n):
             i = self.shard["index"] + j * self.shard["of"]
             self.outrand_one("server" if i % 2 else "client", i)
@@ -1475,26 +1483,16 @@ class Sections:
             rep.monitor("release_abort_fail_pending")
             name = SIG_NAMES[closer_code]
             outcome = "ok"
-            try:
-                after, _ = rt.decode_stream(bytes(t.out))
-            except rt.Malformed:
-                after = []
-            own_abort = any(f.code == rt.ABORT for f in after)
-            el = [it.elective for it in items[: items.index(closer)] if it.elective]
-            if own_abort and csm_first:
-                # everything the peer sent up to its Release/Abort was well-formed
-                if el:
-                    key = "sig-elective-option/aborted" + ("/non-utf8-value" if "non-utf8" in el else "")
-                    rep.monitor("elective_sig_option_ignored")
-                elif closer.elective:
-                    key = None  # reaction to the peer's own closing message: not judged
-                    rep.count("own_abort_in_reaction_to_peer_%s_with_elective_option" % SIG_NAMES[closer_code])
-                else:
-                    key = "wellformed-stream/aborted"
-                if key:
-                    rep.violation(key, "a well-formed peer stream made the client context send Abort", {"peer_items": [it.brief() for it in items], "chunking": ccl, "written": [rt.describe(f) for f in after[-3:]]}, case)
-                    outcome = "violation"
-                    answered = {} if el else answered
+            # Requests answered before the closing message must have their response unless an unknown
+            # elective signalling option precedes it (aiocoap may abort there: judged by the bare-connection
+            # sections under sig-elective-option/*, not here).
+            clean_until = {}
+            seen_elective = False
+            for it in items:
+                if it.elective:
+                    seen_elective = True
+                if it.kind == "resp":
+                    clean_until[it.frame.token] = not seen_elective
 
             def wit(**kw):
                 w = {"local_role": role, "requests": repr(sent)[:300], "peer_items": [it.brief() for it in items], "chunking": ccl, "chunk_sizes": [len(c) for c in chunks][:40], "csm_first": csm_first, "answered": sorted(answered)}
@@ -1504,7 +1502,9 @@ class Sections:
             for j, f in enumerate(futs):
                 if j in answered:
                     if not f.done() or f.cancelled() or f.exception() is not None:
-                        if csm_first and outcome == "ok":
+                        if not clean_until.get(reqs[j].token, False):
+                            rep.count("e2e_response_after_elective_option_not_delivered")
+                        elif csm_first:
                             rep.violation("e2e-client/response-not-delivered", "a response sent after the CSM and before %s did not complete its request" % name, wit(request=j, state=repr(f)[:200]), case)
                             outcome = "violation"
                     elif bytes(f.result().payload) != answered[j] or int(f.result().code) != 69:
@@ -1663,11 +1663,32 @@ class Sections:
                 self.rep.seen("loop_exception_types", str(x.get("exc_type")))
 
     def e2e(self):
-        n = 12 if self.quick else 600
+        n = 150 if self.quick else 10000
         for j in range(n):
             i = self.shard["index"] + j * self.shard["of"]
             self.e2e_one("e2ec", i)
             self.e2e_one("e2es", i)
+
+    # -- behaviours the statement leaves open: recorded in the evidence, never judged ----------------
+    def unjudged(self):
+        rt = self.rt
+        probes = {
+            "payload-marker-without-payload": ["00e1", "1001ff"],
+            "unknown-signalling-code-7.06": ["00e1", "00e6", "2101a2b161"],
+            "reserved-code-class-1.00": ["00e1", "0020"],
+            "reserved-code-class-6.00": ["00e1", "00c0"],
+            "header-announcing-4GiB-frame": ["00e1", "f0ffffffff"],
+            "request-in-same-chunk-after-csm-with-critical-option": ["10e110", "2101a2b161"],
+            "request-in-same-chunk-after-release": ["00e1", "00e4", "2101a2b161"],
+            "non-utf8-in-elective-string-option-of-request": ["00e1", "200181ff"],
+        }
+        for name, hexes in probes.items():
+            for role in ("server", "client"):
+                rig = Rig(self.env, role)
+                rig.feed([b"".join(bytes.fromhex(h) for h in hexes)])
+                frames, _ = rig.written_frames()
+                out = "escape" if rig.escape is not None else ("abort" if any(f.code == rt.ABORT for f in frames) else ("closed" if rig.t.closing else "tolerated"))
+                self.rep.count("unjudged/%s/%s/%s-dispatched-%d" % (name, role, out, len(rig.tm.events)))
 
     # -- replay ---------------------------------------------------------------------------------
     def replay(self, case):
@@ -1708,6 +1729,8 @@ def run_shard(shard, rep, only=None):
         if only is not None:
             s.replay(only)
             return
+        if shard["index"] == 0:
+            s.unjudged()
         s.short()  # first: its witnesses are the smallest
         s.sigopt()
         s.lengths()
